@@ -18,6 +18,21 @@ _rec = [None]      # active loop recorder (loops.py)
 _canon_memo = {}
 
 
+def _mono_order(t):
+    if z3.is_app(t) and t.decl().kind() == z3.Z3_OP_MUL:
+        ch = sorted(t.children(), key=lambda c: (not z3.is_int_value(c), c.sexpr()))
+        return z3.Product(ch) if len(ch) > 1 else ch[0]
+    return t
+
+
+def _poly_order(r):
+    """order the monomials of an expanded integer polynomial by their text (z3 orders them by creation time)"""
+    if z3.is_app(r) and r.decl().kind() == z3.Z3_OP_ADD:
+        ch = sorted((_mono_order(c) for c in r.children()), key=lambda c: (not z3.is_int_value(c), c.sexpr()))
+        return z3.Sum(ch)
+    return _mono_order(r)
+
+
 def _canon_index(i):
     """canonical form of a symbolic index term (n-(i+1) and n-1-i become the same term), so that
     equal elements of the same array are syntactically equal"""
@@ -28,6 +43,8 @@ def _canon_index(i):
         v = T.conc_value(r)
         if v is not None:
             r = int(v)
+        elif r.sort() == z3.IntSort():
+            r = _poly_order(r)
         _canon_memo[k] = r
         _canon_memo[("keep", k)] = i
     return r
@@ -156,10 +173,20 @@ class SymArray:
         else:
             def fn(t, old=old):
                 d = T.sub(t, lo)
-                c = T.band(T.le(lo, t), T.lt(t, hi), T.eq(T.mod(d, step), 0))
-                if c is False:
-                    return old(t)
-                val = vat(T.floordiv(d, step)) if vat else v
+                w = find_quotient(T.simp(d), step) if T.is_sym(d) and T.is_sym(step) else None
+                if w is not None:
+                    # explicit Euclidean witness  t - lo = k*step + r  (unique): no div/mod terms
+                    k, r = w
+                    c = T.band(T.le(lo, t), T.lt(t, hi), T.eq(r, 0))
+                    if c is False:
+                        return old(t)
+                    val = vat(k) if vat else v
+                    return T.ite(c, val, old(t))
+                with T.no_safety():
+                    c = T.band(T.le(lo, t), T.lt(t, hi), T.eq(T.mod(d, step), 0))
+                    if c is False:
+                        return old(t)
+                    val = vat(T.floordiv(d, step)) if vat else v
                 return T.ite(c, val, old(t))
         self._set_fn(fn)
 
@@ -276,6 +303,50 @@ def slice_len(lo, hi, step):
     return L
 
 
+def int_consts(t, limit=40):
+    """integer constants occurring in a term (candidates for quotient witnesses)"""
+    out, seen, st = [], set(), [t]
+    while st and len(seen) < 400:
+        e = st.pop()
+        if e.get_id() in seen:
+            continue
+        seen.add(e.get_id())
+        if z3.is_const(e) and e.decl().kind() == z3.Z3_OP_UNINTERPRETED and e.sort() == z3.IntSort():
+            out.append(e)
+        st.extend(e.children())
+    return out[:limit]
+
+
+_quot_memo = {}
+
+
+def find_quotient(d, a):
+    """(q, r) with d == q*a + r as a polynomial identity and 0 <= r < a entailed by the integer facts of the
+    session, for a candidate quotient q among the integer constants of d (and q+-1); None if not found.
+    Replaces a Euclidean-division skolem by an explicit witness (the division is unique)."""
+    if not T.is_sym(d):
+        return None
+    key = (d.get_id(), a.get_id() if T.is_sym(a) else a, len(cur().facts))
+    if key in _quot_memo:
+        return _quot_memo[key]
+    res = None
+    for c in int_consts(d):
+        for q in (c, c + 1, c - 1):
+            r = z3.simplify(T.tz(d) - q * T.tz(a), som=True)
+            if any(x.eq(c) for x in int_consts(r)) and T.is_sym(a):
+                continue
+            rr = T.conc_value(r)
+            rterm = rr if rr is not None else r
+            if T.decide(T.band(T.le(0, rterm), T.lt(rterm, a))) is True:
+                res = (z3.simplify(q), rterm)
+                break
+        if res:
+            break
+    _quot_memo[key] = res
+    _quot_memo[("keep", key)] = (d, a)
+    return res
+
+
 class IndexTable(SymArray):
     """integer array  base + stride*k, k in [0,length): supports inversion for fancy stores"""
 
@@ -290,9 +361,13 @@ class IndexTable(SymArray):
         if not T.is_sym(st) and st == 1:
             k = T.sub(t, b)
             return T.band(T.le(0, k), T.lt(k, self.length)), k
-        # Euclidean division skolem  t - base = k*stride + r, 0 <= r < stride
+        # Euclidean division  t - base = k*stride + r, 0 <= r < stride: explicit witness if one is found, else skolem
         s = cur()
         d = T.sub(t, b)
+        w = find_quotient(T.simp(d) if T.is_sym(d) else d, st) if T.is_sym(d) else None
+        if w is not None:
+            k, r = w
+            return T.band(T.eq(r, 0), T.le(0, k), T.lt(k, self.length)), k
         memo = s.ghost.setdefault("euclid", {})
         key = (_key(T.simp(d)) if T.is_sym(d) else _key(d), _key(st))
         if key in memo:
